@@ -9,6 +9,7 @@ open Proto Store StoreIO
       rename c o:n,o:n must | tidyUp c keep | getSel c i|m list | setSel c i|m list d
       sortBy c n perm | copy c N|keep | setDtype c n dt | convert c dt:dt,.. exc | indices c
       new name:dt:vals+name:dt:vals
+      appendFieldFrom c n d m | setItemFrom c n d m | newShared d m     (the array handed in IS column m of container d)
     answer:  H=<res> T=<res> | <heap containers ;-separated> | <tables ;-separated>
 -/
 
@@ -19,11 +20,16 @@ abbrev DState := DState1 × List DState1
 def answer1 (st : DState1) (line : String) : DState1 × String :=
   match tokens line with
   | toks =>
-    match pOp toks with
+    let xop : Option XOp := match toks with
+      | ["appendFieldFrom", c, n, d, m] => some (.appendFieldFrom (pN c) (pN n) (pN d) (pN m))
+      | ["setItemFrom", c, n, d, m] => some (.setItemFrom (pN c) (pN n) (pN d) (pN m))
+      | ["newShared", d, m] => some (.newShared (pN d) (pN m))
+      | _ => (pOp toks).map XOp.base
+    match xop with
     | none => (st, "bad-op")
     | some op =>
-      let (s', rh) := stepH st.1 op
-      let (t', rt) := stepT st.2 op
+      let (s', rh) := stepX st.1 op
+      let (t', rt) := stepTX st.2 op
       ((s', t'), s!"H={fRes rh} T={fRes rt} | {semi (s'.conts.map (fCont s'.heap))} | {semi (t'.map fTable)}")
 
 def answer (st : DState) (line : String) : DState × String :=
